@@ -68,11 +68,12 @@ Record table := mkT {
 Definition first_key (es : list entry) : bytes := match es with [] => [] | e :: _ => e_key e end.
 Definition last_key (es : list entry) : bytes := match rev es with [] => [] | e :: _ => e_key e end.
 Definition first_seq (es : list entry) : N := match es with [] => 0 | e :: _ => e_seq e end.
-Definition last_seq (es : list entry) : N := match rev es with [] => 0 | e :: _ => e_seq e end.
+(* endSeqNum: maximum over the entries (3d67666; before it: the sequence number of the last key) *)
+Definition max_seq (es : list entry) : N := fold_left (fun a e => N.max a (e_seq e)) es 0.
 
 Definition write_table (es : list entry) : table :=
   let f := ser_table es in
-  mkT f (blen f) (blen (ser_entries es)) (first_key es) (last_key es) (first_seq es) (last_seq es)
+  mkT f (blen f) (blen (ser_entries es)) (first_key es) (last_key es) (first_seq es) (max_seq es)
       (Some (bloom_of es, index_of es)).
 
 (* Document() then NewTableFromDocument: same file and numbers, metadata not loaded *)
